@@ -5,6 +5,7 @@ Correspondence: real `dali.command.from_frame` vs the Lean model `decode`
 oracle: the property's statement evaluated directly on the real code (never
 raises, frame bit-identical, str() works, order independence, registries
 unchanged)."""
+from common import exc_name  # noqa: E402
 import hashlib
 from props import cmdcommon as cc
 
@@ -83,7 +84,7 @@ def canon(thunk):
         c = thunk()
         return "%s.%s|%d %d|%s" % (type(c).__module__, type(c).__qualname__, len(c.frame), c.frame.as_integer, str(c))
     except Exception as e:
-        return "RAISED " + type(e).__name__
+        return "RAISED " + exc_name(e)
 
 
 probes = []
